@@ -158,6 +158,7 @@ type FnTrans struct {
 	autoPhi           map[*ssa.BasicBlock]*ssa.Phi
 	ptrTerms          []ptrTerm
 	ghostHit          map[*Clause]bool
+	siteOrd           map[ssa.Instruction]int
 	singleAssignCache map[*ssa.Alloc]*ssa.Store
 	collectUnlocked   *[]string // while evaluating a callee's requires: lock components it needs unlocked (it acquires them)
 	tpEvents          []tpEvent
@@ -785,6 +786,15 @@ func (t *FnTrans) typedFresh(comp, term string) {
 		return ""
 	}
 	switch {
+	case strings.HasPrefix(comp, "M.") && strings.HasSuffix(comp, ".val"):
+		// map values: (Array Int (Array K V)); closed heap for reference-typed values
+		ks := s[len("(Array Int (Array "):]
+		ks = ks[:balancedTermEnd(ks)]
+		x := app("select", app("select", term, "tf$r"), "tf$k")
+		if b := body(x); b != "" {
+			t.emit(fmt.Sprintf("(assert (forall ((tf$r Int) (tf$k %s)) (! %s :pattern (%s))))", ks, b, x))
+		}
+	case strings.HasPrefix(comp, "M."):
 	case strings.HasPrefix(s, "(Array Int (Array Int "):
 		x := app("select", app("select", term, "tf$r"), "tf$i")
 		if b := body(x); b != "" {
@@ -801,6 +811,9 @@ func (t *FnTrans) typedFresh(comp, term string) {
 		}
 	}
 }
+
+// balancedTermEnd: length of the first s-expression (or atom) of s.
+func balancedTermEnd(s string) int { return balancedTerm(s, 0) }
 
 // freshVersion declares a new unconstrained version of a component.
 func (t *FnTrans) freshVersion(comp, hint string) string {
